@@ -432,6 +432,15 @@ fn c07(c: &mut Ctx) {
     // legal-move test of `has_legal_moves` is most delicate
     ps.extend(posgen::f3a(c.thorough));
     ps.extend(posgen::f3c().0);
+    let singles = posgen::f3i(&mut c.rng, if c.thorough { 60 } else { 12 }, if c.thorough { 3_000_000 } else { 400_000 });
+    for p in &singles {
+        let ms = true_legal_moves(&p.board);
+        if let Some(m) = ms.first() {
+            let g = posgen::move_group(&p.board, m);
+            c.st.add(&format!("f3i_only_{}{}", g, if p.board.is_check() { "_in_check" } else { "" }), 1);
+        }
+    }
+    ps.extend(singles);
     for p in &ps {
         c.pos(p);
         c.case("outcome", &format!("outcome {}", p.raw_text()));
@@ -548,6 +557,15 @@ fn c09(c: &mut Ctx) {
     }
     for _ in 0..(n * 3 / 10) {
         ps.push(c.rng.pick(&f3).clone());
+    }
+    // single-group positions reached by a checking move: the check / mate mark of that move
+    // depends on one generator group of has_legal_moves
+    {
+        let singles = posgen::f3i(&mut c.rng, if c.thorough { 40 } else { 10 }, if c.thorough { 2_000_000 } else { 400_000 });
+        for (p, m) in posgen::f3i_predecessors(&singles) {
+            c.pos(&p);
+            c.case("sanof", &format!("sanof {} {}", p.raw_text(), mv_fmt(&m)));
+        }
     }
     let n_grammar = c.vol(100, 5.0);
     let mut all_strings: BTreeSet<String> = BTreeSet::new();
@@ -1075,6 +1093,30 @@ fn c20(c: &mut Ctx) {
             _ => c.rng.below(256),
         };
         c.case("bb deposit", &format!("bb deposit {:x} {:x}", mask, x));
+    }
+    // full and nearly full masks (the library itself only deposits into masks of at most 12 squares)
+    for _ in 0..200 {
+        let mut mask = u64::MAX;
+        for _ in 0..c.rng.usize(4) {
+            mask &= !(1u64 << c.rng.usize(64));
+        }
+        let x = match c.rng.usize(3) {
+            0 => c.rng.next_u64(),
+            1 => c.rng.below(1 << 12),
+            _ => c.rng.below(4),
+        };
+        c.case("bb deposit", &format!("bb deposit {:x} {:x}", mask, x));
+    }
+    // from_char of the base types on all code points below U+0300 and a sample above
+    for ty in ["file", "rank", "cell", "color"] {
+        for cp in 0u32..0x300 {
+            c.case("fromchar", &format!("fromchar {} {}", ty, cp));
+        }
+        for base in [0x2100u32, 0x1F600, 0xFF00, 0x0400, 0x4E00] {
+            for d in 0u32..0x100 {
+                c.case("fromchar", &format!("fromchar {} {}", ty, base + d));
+            }
+        }
     }
     c.case("bb deposit", "bb deposit 0 ffffffffffffffff");
     c.case("bb deposit", "bb deposit ffffffffffffffff ffffffffffffffff");
